@@ -33,7 +33,14 @@ pub fn run_all(args: &Args) {
     let mut crng = rng.fork();
     let dir = format!("{}/c{}", root, case_no);
     std::fs::create_dir_all(&dir).unwrap();
-    let n = crng.range(1, 9);
+    // mostly a handful of files; every seventh set is large (just past the usual batch sizes: the workers then share
+    // more than one chunk of work)
+    let n = if case_no % 7 == 3 {
+      out.count("file-set=large");
+      [65, 70, 129, 130, 200, 257, 64, 513][crng.below(8)]
+    } else {
+      crng.range(1, 9)
+    };
     let mut files: Vec<String> = vec![];
     let with_fatal = crng.chance(1, 8);
     let mut expected = 0usize;
